@@ -15,6 +15,12 @@ impl ConnectionHandle {
         Self { id }
     }
 
+    /// Returns the numeric id the broker uses for this connection (verification hook).
+    #[cfg(feature = "verif-hooks")]
+    pub fn verif_id(&self) -> usize {
+        self.id.verif_id()
+    }
+
     pub(crate) fn id(&self) -> &ConnectionId {
         &self.id
     }
